@@ -26,7 +26,9 @@ import (
 	"github.com/enfein/mieru/v3/pkg/appctl"
 	"github.com/enfein/mieru/v3/pkg/appctl/appctlcommon"
 	pb "github.com/enfein/mieru/v3/pkg/appctl/appctlpb"
+	"github.com/enfein/mieru/v3/pkg/cipher"
 	"github.com/enfein/mieru/v3/pkg/common"
+	"github.com/enfein/mieru/v3/pkg/protocol/serveruser"
 	"google.golang.org/protobuf/encoding/protojson"
 	"google.golang.org/protobuf/proto"
 	"google.golang.org/protobuf/types/known/emptypb"
@@ -476,7 +478,10 @@ func genUser(server bool, name string) *pb.User {
 var userPool []string
 
 func pickUserName() string {
-	if len(userPool) < 12 {
+	if len(userPool) == 0 {
+		userPool = append(userPool, strings.Repeat("日", 21)+"a", strings.Repeat("é", 32), strings.Repeat("😀", 16), strings.Repeat("n", 64))
+	}
+	if len(userPool) < 16 {
 		n := genName("")
 		for len(n) > 64 {
 			n = n[:len(n)/2]
@@ -1598,6 +1603,318 @@ func portCases() {
 	}
 }
 
+// ---------------------------------------------------------------- validated => usable: the first use of a name
+
+// boundaryNames: byte length versus rune count around MaxUserNameLen (64), valid and invalid UTF-8.
+func boundaryNames() []string {
+	return []string{
+		strings.Repeat("n", 63), strings.Repeat("n", 64), strings.Repeat("n", 65),
+		strings.Repeat("日", 21) + "a", strings.Repeat("日", 21), strings.Repeat("日", 22), strings.Repeat("日", 30), strings.Repeat("日", 64),
+		strings.Repeat("é", 32), strings.Repeat("é", 33), strings.Repeat("é", 64), strings.Repeat("é", 65),
+		strings.Repeat("😀", 16), strings.Repeat("😀", 17), strings.Repeat("😀", 64),
+		"a" + strings.Repeat("ß", 31) + "b", "a" + strings.Repeat("ß", 32),
+		strings.Repeat("\xff", 64), strings.Repeat("\xff", 65), "ok\xc3", strings.Repeat("\xe6\x97", 40), "日本" + strings.Repeat("x", 59),
+	}
+}
+
+var usableCache = map[string]string{}
+
+// nameUsable: "" when the consumers of a user name (the nonce user hint on both sides, the server's user
+// registry) take the name; otherwise what went wrong. Independent of any validator.
+func nameUsable(name string) string {
+	if v, ok := usableCache[name]; ok {
+		return v
+	}
+	res := ""
+	func() {
+		defer func() {
+			if e := recover(); e != nil {
+				res = fmt.Sprintf("panic in the user hint: %v", e)
+			}
+		}()
+		nonce := make([]byte, 24)
+		out := cipher.VerifC09AddUserHint(name, nonce)
+		if !cipher.CheckUserFromHint([]byte(name), out) {
+			res = "the hint written for the name is not recognised for the same name"
+		}
+	}()
+	if res == "" {
+		func() {
+			defer func() {
+				if e := recover(); e != nil {
+					res = fmt.Sprintf("panic in the user registry: %v", e)
+				}
+			}()
+			st := serveruser.VerifBuildState(map[string]*pb.User{name: {Name: proto.String(name), Password: proto.String("pwUSABLE")}}, nil)
+			_, names, _ := st.Users()
+			if len(names) != 1 || names[0] != name {
+				res = "the server's user registry drops the user"
+			}
+		}()
+	}
+	usableCache[name] = res
+	return res
+}
+
+func judgeNames(what string, names []string, input interface{}) {
+	for _, n := range names {
+		if why := nameUsable(n); why != "" {
+			sig := "validated-name-unusable"
+			if strings.HasPrefix(why, "panic") {
+				sig = "validated-name-panics-downstream"
+			}
+			r.Fail(sig, fmt.Sprintf("%s accepts user name %q (%d bytes) but %s", what, n, len(n), why), input)
+		}
+	}
+}
+
+func hintCases() {
+	names := append(boundaryNames(), "", "a", strings.Repeat("x", 64), strings.Repeat("x", 200))
+	names = append(names, userPool...)
+	for _, n := range names {
+		impl := "OK"
+		func() {
+			defer func() {
+				if recover() != nil {
+					impl = "PANIC"
+				}
+			}()
+			cipher.CheckUserFromHint([]byte(n), make([]byte, 24))
+		}()
+		r.Case("NH "+hb(n), impl)
+		r.Count("NH")
+		r.Distinct(fmt.Sprintf("nh-%s-%d", impl, imin(len(n), 70)))
+	}
+}
+
+// ---------------------------------------------------------------- operation histories on ONE server file
+
+type hist struct {
+	path    string
+	jsonFmt bool
+	markers [][]byte
+	log     []string
+}
+
+func (h *hist) fileConfig() (*pb.ServerConfig, []byte, bool) {
+	raw, err := os.ReadFile(h.path)
+	if err != nil {
+		return nil, nil, false
+	}
+	c, perr := parseStoredServer(raw, h.jsonFmt)
+	if perr != nil {
+		r.Fail("stored-file-unparsable", "the server file cannot be parsed independently: "+perr.Error(), h.log)
+		return nil, raw, false
+	}
+	return c, raw, true
+}
+
+func (h *hist) noPlaintext(where string, text []byte, users []*pb.User) {
+	for _, m := range h.markers {
+		if bytes.Contains(text, m) {
+			r.Fail("plaintext-password-visible", where+" shows a plaintext password", h.log)
+			return
+		}
+	}
+	for _, u := range users {
+		if u.GetPassword() != "" {
+			r.Fail("plaintext-password-visible", where+" returns a user with a non-empty password", h.log)
+			return
+		}
+	}
+}
+
+// observe: Load (twice, mutating the first result in between), GetJSON and the raw file must all say the same.
+func (h *hist) observe() string {
+	fileCfg, raw, exists := h.fileConfig()
+	var l1, l2 *pb.ServerConfig
+	var e1, e2 error
+	if guard("LoadServerConfig", h.log, func() { l1, e1 = appctl.LoadServerConfig() }) {
+		return "PANIC"
+	}
+	if exists != (e1 == nil) {
+		r.Fail("load-differs-from-file", fmt.Sprintf("file exists=%v but LoadServerConfig err=%v", exists, e1), h.log)
+	}
+	if !exists {
+		return "NOFILE"
+	}
+	if e1 == nil && !proto.Equal(l1, fileCfg) {
+		r.Fail("load-differs-from-file", "LoadServerConfig returns a configuration that is not what the file holds", h.log)
+	}
+	h.noPlaintext("the server file", raw, nil)
+	if e1 == nil {
+		h.noPlaintext("LoadServerConfig", nil, l1.Users)
+		// the caller owns what Load returned: scribbling on it must not change what the next Load returns
+		l1.Users = append(l1.Users, &pb.User{Name: proto.String("alias"), Password: proto.String("pwALIAS01")})
+		l1.Mtu = proto.Int32(1)
+		l1.PortBindings = nil
+	}
+	var js string
+	var ej error
+	if !guard("GetJSONServerConfig", h.log, func() { js, ej = appctl.GetJSONServerConfig() }) && ej == nil {
+		jc := &pb.ServerConfig{}
+		if err := protojson.Unmarshal([]byte(js), jc); err != nil || !proto.Equal(jc, fileCfg) {
+			sig := "load-differs-from-file"
+			if bytes.Contains([]byte(js), []byte("pwALIAS01")) {
+				sig = "load-aliases-previous-result"
+			}
+			r.Fail(sig, "GetJSONServerConfig does not describe what the file holds", h.log)
+		} else {
+			h.noPlaintext("GetJSONServerConfig", []byte(js), nil)
+		}
+	}
+	if guard("LoadServerConfig", h.log, func() { l2, e2 = appctl.LoadServerConfig() }) || e2 != nil {
+		return "ERR"
+	}
+	if !proto.Equal(l2, fileCfg) {
+		r.Fail("load-aliases-previous-result", "after the caller modified a loaded configuration the next LoadServerConfig returns the modification", h.log)
+	}
+	return tokServer(l2, true)
+}
+
+func (h *hist) note(c *pb.ServerConfig) {
+	h.markers = append(h.markers, pwMarkers(c.Users)...)
+	for _, u := range c.Users {
+		if u.Password != nil {
+			regPre(u.GetPassword(), u.GetName())
+		}
+	}
+}
+
+// do runs one operation, then observes; rejected operations must leave file and observation as they were.
+func (h *hist) do(caseLine, what string, op func() error) {
+	h.log = append(h.log, what)
+	_, rawBefore, _ := h.fileConfig()
+	var before *pb.ServerConfig
+	if c, err := appctl.LoadServerConfig(); err == nil {
+		before = proto.Clone(c).(*pb.ServerConfig)
+	}
+	var err error
+	if guard("history-op", h.log, func() { err = op() }) {
+		r.Case(caseLine, "PANIC")
+		return
+	}
+	_, rawAfter, _ := h.fileConfig()
+	if err != nil {
+		var after *pb.ServerConfig
+		if c, lerr := appctl.LoadServerConfig(); lerr == nil {
+			after = c
+		}
+		if !bytes.Equal(rawBefore, rawAfter) {
+			r.Fail("rejected-op-changed-file", "an operation that returned an error changed the server file: "+err.Error(), h.log)
+		}
+		if (before == nil) != (after == nil) || (before != nil && !proto.Equal(before, after)) {
+			r.Fail("rejected-op-changed-observation", "after an operation that returned an error LoadServerConfig answers differently: "+err.Error(), h.log)
+		}
+	}
+	obs := h.observe()
+	if err != nil {
+		r.Case(caseLine, "REJ "+obs)
+		r.Count("hist-rejected")
+	} else {
+		r.Case(caseLine, "OK "+obs)
+		r.Count("hist-accepted")
+	}
+}
+
+func historyRound(i int) {
+	h := &hist{jsonFmt: i%2 == 0}
+	h.path = setServerPath(h.jsonFmt)
+	h.log = []string{fmt.Sprintf("json=%v", h.jsonFmt)}
+	r.Case("HR", "-")
+	ppath := filepath.Join(tmp, "hist_patch.json")
+	apply := func(patch *pb.ServerConfig, label string) {
+		h.note(patch)
+		pj, err := common.MarshalJSON(patch)
+		if err != nil {
+			return
+		}
+		os.WriteFile(ppath, pj, 0o600)
+		h.do("HA "+tokServer(patch, false), label+" "+string(pj), func() error { return appctl.ApplyJSONServerConfig(ppath) })
+	}
+	store := func(c *pb.ServerConfig, label string) {
+		h.note(c)
+		line := "HS " + tokServer(c, false)
+		h.do(line, label+" "+jsonOf(c), func() error { return appctl.StoreServerConfig(proto.Clone(c).(*pb.ServerConfig)) })
+	}
+	usersOnly := func() *pb.ServerConfig {
+		c := &pb.ServerConfig{}
+		for k := r.Rng.Range(1, 3); k > 0; k-- {
+			c.Users = append(c.Users, genUser(true, pickUserName()))
+		}
+		if r.Rng.Bool() {
+			c.LoggingLevel = pb.LoggingLevel(pickEnum(pb.LoggingLevel_name)).Enum()
+		}
+		return c
+	}
+	// ---- the starting point: often a configuration that is stored but not (yet) startable
+	switch i % 5 {
+	case 0:
+		store(&pb.ServerConfig{}, "store-empty")
+	case 1:
+		store(usersOnly(), "store-users-only")
+	case 2:
+		c := genServer(true)
+		c.Mtu = proto.Int32(5)
+		store(c, "store-bad-mtu")
+	case 3: // nothing stored yet
+	default:
+		store(genServer(true), "store-valid")
+	}
+	steps := r.Rng.Range(5, 12)
+	for k := 0; k < steps; k++ {
+		switch r.Rng.Intn(12) {
+		case 0, 1:
+			apply(usersOnly(), "apply-users-only")
+		case 2:
+			apply(&pb.ServerConfig{PortBindings: genPortBindings()}, "apply-ports-only")
+		case 3:
+			apply(genServer(false), "apply-generated-patch")
+		case 4:
+			bad := usersOnly()
+			switch r.Rng.Intn(3) {
+			case 0:
+				bad.Mtu = proto.Int32(5)
+			case 1:
+				bad.Users[0].Name = proto.String("")
+			default:
+				bad.PortBindings = []*pb.PortBinding{{Port: proto.Int32(70000), Protocol: pb.TransportProtocol_TCP.Enum()}}
+			}
+			apply(bad, "apply-invalid-patch")
+		case 5:
+			txt := []string{"{", "", `{"users":[{"name":"a","password":"pwMALFORM1"`, "\xff", `{"nope":1}`}[r.Rng.Intn(5)]
+			os.WriteFile(ppath, []byte(txt), 0o600)
+			h.do("HM", "apply-malformed "+txt, func() error { return appctl.ApplyJSONServerConfig(ppath) })
+		case 6:
+			h.do("HL", "load", func() error { _, err := appctl.LoadServerConfig(); return err })
+		case 7:
+			h.do("HG", "getjson", func() error { _, err := appctl.GetJSONServerConfig(); return err })
+		case 8:
+			store(genServer(r.Rng.Bool()), "store")
+		case 9:
+			apply(&pb.ServerConfig{Mtu: proto.Int32(int32(r.Rng.Range(1280, 1500)))}, "apply-mtu-only")
+		default:
+			var names []string
+			if cur, err := appctl.LoadServerConfig(); err == nil {
+				for _, u := range cur.Users {
+					if r.Rng.Bool() {
+						names = append(names, u.GetName())
+					}
+				}
+			}
+			if r.Rng.Intn(3) == 0 {
+				names = append(names, pickUserName())
+			}
+			f := []string{"HD", strconv.Itoa(len(names))}
+			for _, n := range names {
+				f = append(f, hb(n))
+			}
+			h.do(strings.Join(f, " "), fmt.Sprintf("delete-users %q", names), func() error { return appctl.DeleteServerUsers(names) })
+		}
+	}
+	r.Distinct(fmt.Sprintf("hist-%d-%v-%d", i%5, h.jsonFmt, steps))
+}
+
 // ---------------------------------------------------------------- validators (case kinds VS VP VC VK)
 
 var flatErrs = []string{"protocol is not set", "port number", "unknown protocol", "unable to parse port range", "unable to parse int", "begin of port range"}
@@ -1700,6 +2017,13 @@ func vServer(c *pb.ServerConfig) {
 	t := tokServer(c, false)
 	r.Case("VS "+t, serverCode(e1))
 	r.Case("VP "+t, serverCode(e2))
+	if e2 == nil {
+		var names []string
+		for _, u := range c.Users {
+			names = append(names, u.GetName())
+		}
+		judgeNames("ValidateServerConfigPatch", names, jsonOf(c))
+	}
 	r.Count("V-server")
 	r.Distinct("vs-" + serverCode(e1))
 }
@@ -1712,6 +2036,13 @@ func vClient(c *pb.ClientConfig) {
 	t := tokClient(c, false)
 	r.Case("VC "+t, clientCode(e1))
 	r.Case("VK "+t, clientCode(e2))
+	if e2 == nil {
+		var names []string
+		for _, p := range c.Profiles {
+			names = append(names, p.GetUser().GetName())
+		}
+		judgeNames("ValidateClientConfigPatch", names, jsonOf(c))
+	}
 	r.Count("V-client")
 	r.Distinct("vc-" + clientCode(e1))
 }
@@ -1738,6 +2069,10 @@ func serverBoundaries() []func(*pb.ServerConfig) {
 		add(func(c *pb.ServerConfig) { firstUser(c).Name = rep("n", n) })
 		add(func(c *pb.ServerConfig) { firstUser(c).Password = rep("p", n) })
 		add(func(c *pb.ServerConfig) { u := firstUser(c); u.Password = rep("p", n); u.HashedPassword = nil })
+	}
+	for _, bn := range boundaryNames() {
+		bn := bn
+		add(func(c *pb.ServerConfig) { firstUser(c).Name = proto.String(bn) })
 	}
 	add(func(c *pb.ServerConfig) { u := firstUser(c); u.Password = nil; u.HashedPassword = nil })
 	add(func(c *pb.ServerConfig) { u := firstUser(c); u.Password = nil; u.HashedPassword = proto.String("00") })
@@ -1847,6 +2182,10 @@ func clientBoundaries() []func(*pb.ClientConfig) {
 	add(func(c *pb.ClientConfig) {
 		firstProfile(c).User.Quotas = []*pb.Quota{{Days: proto.Int32(1), Megabytes: proto.Int32(1)}}
 	})
+	for _, bn := range boundaryNames() {
+		bn := bn
+		add(func(c *pb.ClientConfig) { firstProfile(c).User.Name = proto.String(bn) })
+	}
 	add(func(c *pb.ClientConfig) { firstProfile(c).Servers = nil })
 	add(func(c *pb.ClientConfig) { s := firstProfile(c).Servers[0]; s.IpAddress, s.DomainName = nil, nil })
 	add(func(c *pb.ClientConfig) { s := firstProfile(c).Servers[0]; s.IpAddress = proto.String("bad") })
@@ -2028,7 +2367,7 @@ func setConfigRPC() {
 func main() {
 	r = vh.Start("c20")
 	defer r.Finish()
-	r.Rep.Rule = "corpus first (mieru: , mieru:/ and every truncation of the link prefixes); then generated valid server and client configurations and patches (users with plaintext / hashed / both passwords, quotas, ports and port ranges, egress proxies and rules, DNS hosts, traffic patterns, every optional field independently set or unset, names and passwords drawn from an alphabet of space % # ? @ : / & = + quotes backslash unicode) through merge, Store/Load/Apply in both file formats (path chosen via the environment variables and via the cached package variables) and through both link forms; mutated links, mutated JSON and arbitrary bytes to the parsers; boundary and random port-range / integer texts; the validators on generated configurations and on every bound perturbed to both sides (name and password lengths, quota days incl. the time.Duration bound, MTU, ports, egress proxies and rules, DNS hosts, metrics interval, client ports and active profile). Non-trivial/distinct = distinct (operation, file format, set of fields set, list sizes) tuples and distinct (parser outcome stage, input length class) pairs"
+	r.Rep.Rule = "corpus first (mieru: , mieru:/ and every truncation of the link prefixes); then generated valid server and client configurations and patches (users with plaintext / hashed / both passwords, quotas, ports and port ranges, egress proxies and rules, DNS hosts, traffic patterns, every optional field independently set or unset, names and passwords drawn from an alphabet of space % # ? @ : / & = + quotes backslash unicode) through merge, Store/Load/Apply in both file formats (path chosen via the environment variables and via the cached package variables) and through both link forms; mutated links, mutated JSON and arbitrary bytes to the parsers; boundary and random port-range / integer texts; the validators on generated configurations and on every bound perturbed to both sides (name and password lengths, quota days incl. the time.Duration bound, MTU, ports, egress proxies and rules, DNS hosts, metrics interval, client ports and active profile, user names at 63/64/65 bytes in 1-4-byte characters and invalid UTF-8, each validated name handed to the real user-hint and user-registry code); operation histories on one server file in both formats (store of startable and non-startable configurations, apply of valid / invalid / full-validation-failing / malformed patches, load, get-JSON, delete users) observed after every step through Load twice with a mutation in between, GetJSON and the raw file. Non-trivial/distinct = distinct (operation, file format, set of fields set, list sizes) tuples and distinct (parser outcome stage, input length class) pairs"
 	tmp = filepath.Join(r.Out, "cfgtmp")
 	os.RemoveAll(tmp)
 	os.MkdirAll(tmp, 0o755)
@@ -2093,6 +2432,14 @@ func main() {
 	validatorCases(nV)
 	witnessChecks()
 	setConfigRPC()
+	hintCases()
+	nHist := 40
+	if r.Thorough() {
+		nHist = 1200
+	}
+	for i := 0; i < nHist; i++ {
+		historyRound(i)
+	}
 }
 
 func imin(a, b int) int {
